@@ -288,6 +288,16 @@ bool Interp::op_add_packet(const Op &op, size_t ci, cif_container_tp *h, Contain
     if (!expect(op, rc, {CIF_OK})) return false;
     if (partial) { std::vector<Value> row(ml.names.size(), Value::unk()); for (size_t i = 0; i < kept_idx.size(); i++) row[kept_idx[i]] = pvals[i]; pvals = row; }
     ml.rows.push_back(pvals); touched(ci);
+    if (partial) {
+        // packet iteration synthesises unknown values for whatever is missing, so ask directly whether the omitted items now HAVE a value in
+        // this packet: with one packet the item is found, with more it is ambiguous; never CIF_NOSUCH_ITEM, never CIF_OK with several packets
+        for (size_t i = 0; i < ml.names.size(); i++) {
+            if (std::find(kept_idx.begin(), kept_idx.end(), i) != kept_idx.end()) continue;
+            int grc = cif_container_get_value(h, (const UChar *) ml.names[i].c_str(), nullptr);
+            int want = ml.rows.size() == 1 ? CIF_OK : CIF_AMBIGUOUS_ITEM;
+            if (grc != want) { fail = where(op) + ": after a partial packet cif_container_get_value(" + uesc(ml.names[i]) + ") returned " + cm::code_name(grc) + ", expected " + cm::code_name(want) + " (the item the packet omitted has a value in each of the loop's " + std::to_string(ml.rows.size()) + " packets)"; return false; }
+        }
+    }
     return true;
 }
 
